@@ -21,3 +21,6 @@ mod c20_paths;
 #[cfg(kani)]
 mod c14_from_env;
 
+
+#[cfg(kani)]
+mod c14_retry_after;
